@@ -912,6 +912,12 @@ func execCrash(intents []string, st *Stats) (final, outs, oracle []string) {
 			st.Inc(fmt.Sprintf("compact:L%d,new=%d,del=%d", this, len(created), len(deleted)))
 			s.stepKind = append(s.stepKind, "compact")
 			s.steps++
+		case "batch":
+			if s.db == nil || len(w) < 3 {
+				emit(line, "bad-op")
+				continue
+			}
+			s.batch(w[1:], emit, fail)
 		case "gc", "gc-none":
 			if s.db == nil {
 				emit(line, "bad-op")
@@ -1089,6 +1095,9 @@ func genCrashSession(rng *rand.Rand, st *Stats) []string {
 	if memsz == 4096 && rng.Intn(2) == 0 {
 		thr = 200
 	}
+	if params["mode"] == "power" && rng.Intn(2) == 0 {
+		memsz, thr = 4096, 200
+	}
 	vmax := pick(rng, 3, 5, 1000)
 	keep := pick(rng, 1000, 1000, 1)
 	var ops []string
@@ -1104,9 +1113,10 @@ func genCrashSession(rng *rand.Rand, st *Stats) []string {
 		nsteps = v
 	}
 	maxTxnBytes := memsz * 15 / 100
-	burstAt := -1
+	burstAt, batchAt := -1, -1
 	if memsz <= 8192 && thr == 200 {
 		burstAt = rng.Intn(nsteps)
+		batchAt = rng.Intn(nsteps)
 	}
 	gcAt := -1
 	if vmax <= 5 && thr <= 32 && params["mode"] != "power" {
@@ -1134,6 +1144,9 @@ func genCrashSession(rng *rand.Rand, st *Stats) []string {
 			continue
 		}
 		if i == burstAt {
+			r = 72
+		}
+		if i == batchAt {
 			r = 70
 		}
 		switch {
@@ -1175,6 +1188,21 @@ func genCrashSession(rng *rand.Rand, st *Stats) []string {
 				parts = append(parts, fmt.Sprintf("%s:%d:%s", hx(k), b2i(del), hx(v)))
 			}
 			ops = append(ops, "commit "+strings.Join(parts, ","))
+		case r < 71 && memsz <= 8192 && thr == 200:
+			// several commits in one writeRequests call, fat enough to rotate the memtable inside it
+			nb := memsz/220 + 2
+			var rq []string
+			for j := 0; j < nb; j++ {
+				n := thr - 1 - rng.Intn(20)
+				if n+40 > maxTxnBytes/2 {
+					n = maxTxnBytes/2 - 41
+				}
+				v := make([]byte, n)
+				rng.Read(v)
+				v[n-1] |= 1
+				rq = append(rq, fmt.Sprintf("%s:0:%s", hx(keys[rng.Intn(len(keys))]), hx(v)))
+			}
+			ops = append(ops, "batch "+strings.Join(rq, " "))
 		case r < 73 && memsz <= 8192 && thr == 200:
 			// burst of fat single-entry commits: the memtable fills up and rotates inside a commit
 			nb := memsz/150 + rng.Intn(8)
@@ -1726,7 +1754,7 @@ func (s *crSess) realKills(n int, emit func(string, string), fail func(string)) 
 	for _, l := range s.intents {
 		w := strings.Fields(l)
 		switch w[0] {
-		case "reset", "commit", "flush", "reopen", "c07", "gc":
+		case "reset", "commit", "flush", "reopen", "c07", "gc", "batch":
 			lines = append(lines, l)
 		case "compact", "compact-none":
 			lines = append(lines, l)
@@ -1882,6 +1910,29 @@ func crashChild(intents []string) {
 			for badger.VerifImmCount(db) > 0 {
 				time.Sleep(100 * time.Microsecond)
 			}
+		case "batch":
+			for _, r := range w[1:] {
+				if strings.HasPrefix(r, "rots=") {
+					continue
+				}
+				ents := parseCrEnts(r)
+				fmt.Fprintf(ack, "issue %d\n", commitNo)
+				err := db.Update(func(txn *badger.Txn) error {
+					for _, e := range ents {
+						if err := txn.Set(e.key, e.val); err != nil {
+							return err
+						}
+					}
+					return nil
+				})
+				if err == nil {
+					fmt.Fprintf(ack, "ack %d\n", commitNo)
+				}
+				commitNo++
+			}
+			for badger.VerifImmCount(db) > 0 {
+				time.Sleep(100 * time.Microsecond)
+			}
 		case "flush":
 			_ = badger.VerifFlush(db)
 		case "gc":
@@ -2034,5 +2085,123 @@ func (s *crSess) gc(emit func(string, string), fail func(string)) {
 	emit(fmt.Sprintf("gc fid=%d batches=%s rots=%s moved=%s", fid, js(batches), js(rots), mv), s.stepTokens(s.steps, false))
 	s.st.Inc(fmt.Sprintf("gc:moved=%s", sizeBucket(len(moved))))
 	s.stepKind = append(s.stepKind, "gc")
+	s.steps++
+}
+
+// batch: several commits served by ONE DB.writeRequests call. The write path is parked
+// (VerifHoldWriter) while the first commit is being served, the others are issued with
+// CommitWith and queue up behind it; when the writer is released it serves the first alone and
+// all the others in one call. With fat inline values the memtable fills, and is rotated, in the
+// middle of that call: every request's WAL must be msynced before the batch is acknowledged.
+func (s *crSess) batch(words []string, emit func(string, string), fail func(string)) {
+	var reqs []string
+	for _, r := range words {
+		if !strings.HasPrefix(r, "rots=") {
+			reqs = append(reqs, r)
+		}
+	}
+	tsBase := badger.VerifNextTxnTs(s.db)
+	release := badger.VerifHoldWriter(s.db)
+	type res struct {
+		err   error
+		acked int
+	}
+	results := make([]res, len(reqs))
+	issued := make([]int, len(reqs))
+	done := make(chan int, len(reqs))
+	for i, r := range reqs {
+		i := i
+		issued[i] = s.nEvents()
+		txn := s.db.NewTransaction(true)
+		var err error
+		for _, e := range parseCrEnts(r) {
+			if e.del {
+				err = txn.Delete(e.key)
+			} else {
+				err = txn.Set(e.key, e.val)
+			}
+			if err != nil {
+				break
+			}
+		}
+		if err != nil {
+			txn.Discard()
+			results[i].err = err
+			done <- i
+			continue
+		}
+		txn.CommitWith(func(err error) {
+			results[i] = res{err: err, acked: s.nEvents()}
+			done <- i
+		})
+		if i == 0 {
+			// let the writer pick the first request up and get stuck on it
+			for k := 0; k < 2000 && badger.VerifWriteChLen(s.db) > 0; k++ {
+				time.Sleep(50 * time.Microsecond)
+			}
+			time.Sleep(2 * time.Millisecond)
+		}
+	}
+	for k := 0; k < 2000 && badger.VerifWriteChLen(s.db) > 0; k++ {
+		time.Sleep(50 * time.Microsecond)
+	}
+	time.Sleep(2 * time.Millisecond)
+	release()
+	for range reqs {
+		<-done
+	}
+	s.barrier()
+	okAll := true
+	for i, r := range reqs {
+		if results[i].err != nil {
+			okAll = false
+			continue
+		}
+		s.commits = append(s.commits, crCommit{ts: tsBase + uint64(i), ents: parseCrEnts(r), issuedAt: issued[i], ackedAt: results[i].acked, step: s.steps})
+	}
+	// in which request's ensureRoomForWrite the memtable was rotated: count the end-of-
+	// transaction records (one per request) seen before each create:mem
+	rots := make([]int, len(reqs))
+	fins := 0
+	ri := 0
+	var memWrites []crEv
+	for _, e := range s.events {
+		if e.step == s.steps && e.tok != "" {
+			memWrites = append(memWrites, e)
+		}
+	}
+	_ = fins
+	// every request writes len(ents)+1 WAL records; walk the events
+	need := 0
+	if len(reqs) > 0 {
+		need = len(parseCrEnts(reqs[0])) + 1
+	}
+	for _, e := range memWrites {
+		switch {
+		case e.Kind == badger.VevCreate && strings.HasSuffix(e.file, ".mem"):
+			if ri < len(rots) {
+				rots[ri] = 1
+			}
+		case e.Kind == badger.VevWrite && strings.HasSuffix(e.file, ".mem") && e.A >= 20:
+			need--
+			if need == 0 {
+				ri++
+				if ri < len(reqs) {
+					need = len(parseCrEnts(reqs[ri])) + 1
+				}
+			}
+		}
+	}
+	var rs []string
+	for _, x := range rots {
+		rs = append(rs, strconv.Itoa(x))
+	}
+	out := fmt.Sprintf("ts=%d ", tsBase) + s.stepTokens(s.steps, false)
+	if !okAll {
+		out = "err:batch"
+	}
+	emit("batch rots="+strings.Join(rs, ";")+" "+strings.Join(reqs, " "), out)
+	s.st.Inc(fmt.Sprintf("batch:n=%d,rot=%v", len(reqs), strings.Contains(strings.Join(rs, ""), "1")))
+	s.stepKind = append(s.stepKind, "batch")
 	s.steps++
 }
